@@ -57,6 +57,10 @@ CHECKS = {
    technique="explicit-state closure search: complete reachable state graph of small cyclic workloads on the real library, keyed by a digest without absolute transaction ids (fixpoint = bounded page high-water mark for all infinite runs over that alphabet), plus long deterministic laps",
    text="For each small cyclic workload (fixed- and two-size overwrites, delete/re-insert, bucket delete/recreate, an overflow value coming and going, reopen, one reader pinned across up to three commits) the search runs until no new state appears; the maximum page high-water mark over the closed set is a bound for every infinite run. Larger workloads run as deterministic laps of 2 000 / 20 000 transactions with plateau, reopen and pinned-reader rules.",
    note="Trusted: the relative digest is sound (argument in DESIGN.md; merged pairs across different transaction ids are cross-checked by comparing all one-step successors); fileck reads the high-water mark."),
+ "C16": dict(engine="optx", cat="exploration", ref="DESIGN.md §2 C16",
+   technique="exhaustive enumeration of the configuration product (page size x initial pages x strict x populate) with a fixed set of page-size-scaled histories executed on the real library against the reference model; every builder-accepted odd page size probed in a subprocess",
+   text="All 108 configurations run the same histories (key/value sizes as fractions of the page size so split/merge thresholds are hit everywhere): every return value and post-commit dump must equal the reference model, the file must be well-formed, strict mode must not reject a valid commit; growth runs start from the configured initial size and cross at least four extension steps; every page size in [1024,1100] and 4095..4104 must work or be refused cleanly.",
+   note="Trusted: refmodel, fileck. direct_writes is not in the property's quantifier."),
 }
 
 NA = {}
@@ -98,6 +102,7 @@ def main():
             {"name": "crashx", "path": "mc/src/crashx.rs", "serves_properties": ["C02"], "kind_free_text": "crash-point / torn-write enumeration over the logged I/O of each commit, recovery by the real open()"},
             {"name": "faultx", "path": "mc/src/faultx.rs", "serves_properties": ["C11"], "kind_free_text": "per-call I/O fault injection over each commit, follow-up transactions and reopen"},
             {"name": "schedx", "path": "mc/src/sched.rs, mc/src/schedx.rs, mc/src/c09.rs, mc/src/c13.rs", "serves_properties": ["C04", "C09", "C13"], "kind_free_text": "controlled scheduler for real OS threads running the real library (baton passing, lock model in the scheduler, context-bounded DFS over choice prefixes, subtree jobs spread over worker processes)"},
+            {"name": "optx", "path": "mc/src/optx.rs", "serves_properties": ["C16"], "kind_free_text": "configuration-product enumeration with model comparison; odd page sizes in probe processes"},
             {"name": "seqx", "path": "mc/src/seqx.rs", "serves_properties": ["C01", "C03", "C05", "C06", "C07", "C10"], "kind_free_text": "explicit-state BFS over histories of whole transactions executed on the real library in worker processes; state = history, key = structural digest of file + shared in-memory bookkeeping"},
         ],
         "checks": checks,
